@@ -179,6 +179,10 @@ struct Kernel {
     wakes_requested: u64,
     last_wake_seq: u64,
     winch_raised: u64,
+    /// window-size changes (SIGWINCH with a new winsize) since signals are counted
+    window_changes: u64,
+    /// replies the emulator garbled (their content can not be held against the library)
+    mangled_replies: u64,
     quit_raised: u64,
     typed: Vec<u8>,
     /// events that ran while the app was inside poll
@@ -258,6 +262,7 @@ impl Kernel {
             // (never bytes of the typed alphabet, never an unterminated sequence: what the user
             // types stays attributable)
             self.src.fault("emulator-reply-mangled");
+            self.mangled_replies += 1;
             let mode = self.src.draw(4);
             if mode == 3 {
                 let copy = bytes.clone();
@@ -487,6 +492,9 @@ impl Kernel {
                     if self.counting_signals {
                         if sig == libc::SIGWINCH {
                             self.winch_raised += 1;
+                            if resize {
+                                self.window_changes += 1;
+                            }
                         } else {
                             self.quit_raised += 1;
                             if self.disposing {
@@ -907,6 +915,8 @@ fn new_kernel(mut src: Src) -> Kernel {
         wakes_requested: 0,
         last_wake_seq: 0,
         winch_raised: 0,
+        window_changes: 0,
+        mangled_replies: 0,
         quit_raised: 0,
         typed: Vec::new(),
         in_poll: false,
@@ -944,6 +954,8 @@ struct App {
     keys: Vec<char>,
     wakes_seen: u64,
     resizes_seen: u64,
+    /// size carried by the last Resize event
+    last_resize: Option<surf_n_term::TerminalSize>,
     quit_seen: u64,
     failed: bool,
     blocked: bool,
@@ -960,6 +972,7 @@ struct App {
 
 #[derive(Default, Clone, Copy)]
 struct Epoch {
+    window_changes: u64,
     wakes_requested: u64,
     wakes_seen: u64,
     winch_raised: u64,
@@ -1006,7 +1019,10 @@ impl App {
                         self.wakes_seen += 1;
                         self.last_wake_event_step = k.borrow().steps;
                     }
-                    Some(TerminalEvent::Resize(_)) => self.resizes_seen += 1,
+                    Some(TerminalEvent::Resize(size)) => {
+                        self.resizes_seen += 1;
+                        self.last_resize = Some(*size);
+                    }
                     _ => {}
                 }
                 Polled::Event(event)
@@ -1052,6 +1068,7 @@ impl App {
     fn epoch_check(&mut self, kernel: &K, which: &str) -> WorldResult {
         let k = kernel.borrow();
         let now = Epoch {
+            window_changes: k.window_changes,
             wakes_requested: k.wakes_requested,
             wakes_seen: self.wakes_seen,
             winch_raised: k.winch_raised,
@@ -1088,6 +1105,29 @@ impl App {
                 "sigwinch-without-resize",
                 format!("{} SIGWINCH raised between two clean boundaries ({which}), no Resize event delivered", now.winch_raised - start.winch_raised),
             ));
+        }
+        // the window changed size in this epoch: at a clean boundary (every answer delivered,
+        // nothing in flight) the application must have been told the size the window has now,
+        // and the terminal object must report it - whichever size interface is in use
+        if now.window_changes > start.window_changes && k.mangled_replies == 0 {
+            let cells = (k.winsize.ws_row as usize, k.winsize.ws_col as usize);
+            let told = self.last_resize.map(|s| (s.cells.height, s.cells.width));
+            let reported = self.term.as_ref().and_then(|t| t.size().ok()).map(|s| (s.cells.height, s.cells.width));
+            if told != Some(cells) || reported != Some(cells) {
+                return Err(violation(
+                    "C17",
+                    "C17.signal",
+                    "window-size-change-not-delivered",
+                    format!(
+                        "the window changed size {} time(s) between two clean boundaries ({which}) and is {}x{} now, but the last Resize event said {:?} and size() reports {:?}",
+                        now.window_changes - start.window_changes,
+                        cells.0,
+                        cells.1,
+                        told,
+                        reported
+                    ),
+                ));
+            }
         }
         let typed: Vec<char> = k.typed[start.typed..].iter().map(|b| *b as char).collect();
         let keys: Vec<char> = self.keys[start.keys..].to_vec();
@@ -1222,6 +1262,7 @@ fn session(ctx: &Ctx, kernel: &K) -> WorldResult {
         keys: Vec::new(),
         wakes_seen: 0,
         resizes_seen: 0,
+        last_resize: None,
         quit_seen: 0,
         failed: false,
         blocked: false,
@@ -1407,7 +1448,8 @@ fn session(ctx: &Ctx, kernel: &K) -> WorldResult {
                 let mut k = kernel.borrow_mut();
                 let sig = *k.src.pick(&[libc::SIGWINCH, libc::SIGWINCH, libc::SIGINT, libc::SIGTERM, libc::SIGQUIT]);
                 let delay = k.src.draw(3000) as u64 * US;
-                let resize = k.src.chance(1, 2);
+                // the window only ever changes size together with a SIGWINCH
+                let resize = k.src.chance(1, 2) && sig == libc::SIGWINCH;
                 k.schedule(delay, Ev::Signal(sig, resize));
                 if k.src.chance(1, 4) {
                     // burst / duplicate
@@ -1533,7 +1575,10 @@ fn session(ctx: &Ctx, kernel: &K) -> WorldResult {
                             app.wakes_seen += 1;
                             app.last_wake_event_step = k.borrow().steps;
                         }
-                        Some(TerminalEvent::Resize(_)) => app.resizes_seen += 1,
+                        Some(TerminalEvent::Resize(size)) => {
+                            app.resizes_seen += 1;
+                            app.last_resize = Some(*size);
+                        }
                         _ => {}
                     }
                 }
